@@ -437,8 +437,12 @@ class Check:
                 closed += 1
             elif b.startswith("Axioms:"):
                 for ln in b.split("\n")[1:]:
-                    m = re.match(r"^([A-Za-z_][\w\.']*)\s*:", ln)
-                    if m:
+                    # an entry starts at column 0 with the axiom's name; its type may continue on
+                    # indented lines (the ':' is not always on the first line)
+                    m = re.match(r"^([A-Za-z_][\w\.']*)(?:\s|:|$)", ln)
+                    # Print Assumptions prints qualified names (Classical_Prop.classic, SB3V.Model.X.ax):
+                    # unqualified words at column 0 are make / warning chatter
+                    if m and "." in m.group(1).strip(".") and not m.group(1).endswith(".v") and not m.group(1).endswith(".vo"):
                         axioms.add(m.group(1))
         n_pa = len(re.findall(r"Closed under the global context|Axioms:", out))
         self.notes["print_assumptions"] = {"theorems_checked": n_pa, "closed": closed, "axioms": sorted(axioms)}
